@@ -21,7 +21,7 @@ RULE = (
     "options dict plain / with nested storage_options / absent), cli-create(adjacent | user dir, "
     "rpc), open with create_cache=True while the user cache dir cannot be created (allowed to fail with OSError, not to write elsewhere), open of the same product on memory:// or vtrace:// (uncached, or with index files shipped next to its images; with / without storage_options), delete local cache, delete adjacent cache, tear (truncate) the index files of one location, reload an earlier returned tree}. Quick: a "
     "Hypothesis RuleBasedStateMachine (120 machines x <= 12 steps) plus all histories of length "
-    "<= 2 over a 16-operation alphabet and all 96 'produce a cache, disturb it, open' triples, plus 18 short histories in which a step (an open with / without cache use or creation) is carried out by another process whose preferred text encoding is not UTF-8 (C locale; some with another string hash seed) - caches written there are used here and the other way round, plus all pairs (one spelling of the local product path writes the cache, another reads it) over 9 spellings (plain, trailing slash(es), file:// and local:// URLs, relative paths, pathlib.Path); thorough: breadth-first enumeration of ALL histories up "
+    "<= 2 over a 16-operation alphabet and all 96 'produce a cache, disturb it, open' triples, plus 18 short histories in which a step (an open with / without cache use or creation) is carried out by another process whose preferred text encoding is not UTF-8 (C locale; some with another string hash seed) - caches written there are used here and the other way round, plus all pairs (one spelling of the local product path writes the cache, another reads it) over 10 spellings (plain, trailing slash(es), file:// and local:// URLs, relative paths, pathlib.Path, a path through a symlink followed by '..'); 24 histories through partial cache states (only one image of the product has an index: deleted, or made by the tool for one image); thorough: breadth-first enumeration of ALL histories up "
     "to length 4 over that alphabet (69904 per product) for a level-1.1 ScanSAR-like product (image files differ only in the scan suffix) and a level-1.5 product. "
     "Invariants after every step: the returned tree equals the uncached reference for this "
     "step's rpc; the product directory (listing + sha256) is unchanged except index files made "
@@ -343,7 +343,7 @@ class World:
                     self.hash_dir.rmdir()
         elif kind == "cli":
             tag = op.get("rpc", "default")
-            for image in self.images:
+            for image in (self.images if op.get("image") is None else [self.images[op["image"] % len(self.images)]]):
                 argv = []
                 if rpc_value(tag) is not None:
                     argv += ["--rpc", str(rpc_value(tag))]
@@ -357,6 +357,16 @@ class World:
                     continue
                 (self.local if op["target"] == "user" else self.adjacent).add(image)
                 (self.torn_local if op["target"] == "user" else self.torn_adjacent).pop(image, None)
+        elif kind == "delete_local" and op.get("image") is not None:
+            # the index of ONE image disappears: a partial cache state
+            image = self.images[op["image"] % len(self.images)]
+            (self.hash_dir / f"{image}.index").unlink(missing_ok=True)
+            self.local.discard(image)
+            self.torn_local.pop(image, None)
+            try:
+                self.hash_dir.rmdir()
+            except OSError:
+                pass
         elif kind == "delete_local":
             for image in self.images:
                 (self.hash_dir / f"{image}.index").unlink(missing_ok=True)
@@ -437,6 +447,19 @@ def elsewhere_open(url, opts, hashseed=None):
         os.unlink(name)
 
 
+def partial_cache_cases():
+    """histories through states in which only some images of the product have an index"""
+    o = lambda **kw: dict({"op": "open"}, **kw)  # noqa: E731
+    for level in LEVELS:
+        for k in (0, 1):
+            for create_use in (True, False):
+                yield {"level": level, "ops": [o(use_cache=False, create_cache=True), {"op": "delete_local", "image": k},
+                                               o(use_cache=create_use, create_cache=True, rpc="1"), o(use_cache=True), o(opts="absent")]}
+                yield {"level": level, "ops": [{"op": "cli", "target": "user", "image": k}, o(use_cache=create_use, create_cache=True), o(use_cache=True, rpc="N")]}
+                yield {"level": level, "ops": [{"op": "cli", "target": "adjacent", "image": k}, o(use_cache=create_use, create_cache=True), o(use_cache=True),
+                                               {"op": "delete_adjacent"}, o(use_cache=True)]}
+
+
 def elsewhere_cases():
     """short histories in which one step runs in a process with a non-UTF-8 preferred encoding"""
     here = lambda **kw: dict({"op": "open"}, **kw)  # noqa: E731
@@ -457,12 +480,22 @@ def elsewhere_cases():
             yield {"level": level, "ops": ops}
 
 
-SPELLINGS = ["plain", "slash", "double-slash", "file", "file-slash", "local", "relative", "dot-relative", "pathlib"]
+SPELLINGS = ["plain", "slash", "double-slash", "file", "file-slash", "local", "relative", "dot-relative", "pathlib", "symlink-dotdot"]
 
 
 def spell(directory, how):
     d = str(directory)
     name = pathlib.Path(d).name
+    if how == "symlink-dotdot":
+        # <parent>/vf-view/lnk/../<name> where lnk -> <parent>/vf-sub: the operating system resolves
+        # it to <parent>/<name>; a lexical normalisation would make it <parent>/vf-view/<name>
+        parent = pathlib.Path(d).parent
+        (parent / "vf-sub").mkdir(exist_ok=True)
+        (parent / "vf-view").mkdir(exist_ok=True)
+        link = parent / "vf-view" / "lnk"
+        if not link.is_symlink():
+            link.symlink_to(parent / "vf-sub")
+        return f"{parent}/vf-view/lnk/../{name}"
     return {
         "plain": d, "slash": d + "/", "double-slash": d + "//", "file": "file://" + d, "file-slash": "file://" + d + "/",
         "local": "local://" + d, "relative": name, "dot-relative": "./" + name, "pathlib": pathlib.Path(d),
@@ -529,6 +562,9 @@ def run_spelled(case):
         finally:
             os.chdir(cwd)
             import shutil
+
+            shutil.rmtree(prod.dir.parent / "vf-view", ignore_errors=True)
+            shutil.rmtree(prod.dir.parent / "vf-sub", ignore_errors=True)
 
             for child in (harness.cache_home().iterdir() if harness.cache_home().exists() else []):
                 shutil.rmtree(child, ignore_errors=True)
@@ -600,6 +636,8 @@ op_strategy = st.one_of(
     st.just({"op": "open", "opts": "absent"}),
     st.fixed_dictionaries({"op": st.just("cli"), "target": st.sampled_from(["adjacent", "user"]), "rpc": st.sampled_from(["1", "2", "default", "N+1"])}),
     st.just({"op": "delete_local"}),
+    st.fixed_dictionaries({"op": st.just("delete_local"), "image": st.integers(0, 1)}),
+    st.fixed_dictionaries({"op": st.just("cli"), "target": st.sampled_from(["adjacent", "user"]), "image": st.integers(0, 1)}),
     st.just({"op": "delete_adjacent"}),
     st.fixed_dictionaries({"op": st.just("tear"), "where": st.sampled_from(["user", "adjacent"])}),
     st.fixed_dictionaries({"op": st.just("open_blocked"), "use_cache": st.booleans()}),
@@ -648,6 +686,7 @@ def plan(tier):
     q = tier == "quick"
     return [
         {"kind": "enum", "name": "bfs-histories", "cases": lambda: bfs_cases(2 if q else 4), "exhaustive": True},
+        {"kind": "enum", "name": "partial-cache-states", "cases": partial_cache_cases, "exhaustive": False},
         {"kind": "enum", "name": "path-spellings", "cases": spelling_cases, "exhaustive": True},
         {"kind": "enum", "name": "other-environment-steps", "cases": elsewhere_cases, "exhaustive": False},
         {"kind": "machine", "name": "stateful-machine", "machine": make_machine, "examples": 120 if q else 3000, "steps": 12},
